@@ -1,11 +1,11 @@
 SPECIFICATION Spec
 CONSTANTS
   NReq = 4
-  Caps = {1, 2, 3, 4}
+  Caps = {3}
   Kinds = {"read", "write"}
   WhoPats = {"alt"}
-  Resets = FALSE
-  Quiets = {TRUE, FALSE}
+  Resets = TRUE
+  Quiets = {FALSE}
 INVARIANT TypeOK
 INVARIANT InOrder
 INVARIANT OwnResult
